@@ -74,7 +74,7 @@ func (ml MultiLineString) Len() int {
 func (ml MultiLineString) Points() func() Point {
 	var i, j int
 	return func() Point {
-		if i == len(ml[j]) {
+		for i == len(ml[j]) {
 			j++
 			i = 0
 		}
